@@ -994,7 +994,7 @@ func (m *concModel) isLimitSnapshotD(v ssa.Value, depth int) bool {
 	if depth > 4 {
 		return false
 	}
-	call, ok := v.(*ssa.Call)
+	call, ok := stripConv(v).(*ssa.Call)
 	if !ok {
 		return false
 	}
